@@ -169,7 +169,9 @@ def scan_text(ent: R.Entity, text):
     theirs = sorted(nm.lower() for _r, kind, nm in ent.names if kind != "function")
     if mine != theirs:
         raise R.Unparsed("declared-name scan disagrees with the reader: %s" % sorted(set(mine) ^ set(theirs))[:6])
-    return [(a, b, c) for a, b, c in scoped], sorted(set(relied))
+    # only uses of a name that is also declared in this text can make no_hiding fail: the others are dropped
+    declared = {x[0].lower() for x in scoped}
+    return [(a, b, c) for a, b, c in scoped], sorted(set(r for r in relied if r[0] in declared))
 
 
 def stmt_names(ss, acc):
@@ -309,8 +311,13 @@ def assoc_terms(ent, insts, by_name, printer: R.CoqPrinter, ren, sub):
     return terms, info
 
 
+BIG_TERM = 400000
+
+
 class ECase:
-    """one entity of one compiled design"""
+    """one entity of one compiled design (or one slice of the statements of a very large entity)"""
+    prelude = None
+
     def __init__(self, dname, ent, term, meta):
         self.dname = dname
         self.ent = ent
@@ -334,9 +341,37 @@ def build_cases(dname, vhdl, user_reserved=None):
         dterm = pr.design()
         aterms, ainfo = assoc_terms(e, insts, by_name, pr, ren, sub)
         nterm, ninfo = names_term(e, etext)
-        term = "{| ec_d := %s;\n ec_names := %s;\n ec_assoc := [%s]; ec_user := %s |}" % (
-            dterm, nterm, "; ".join(aterms), coq_strs(user_reserved or []))
-        cases.append(ECase(dname, e, term, {"names": ninfo, "stmts": stmts, "assoc": ainfo, "design": d}))
+        meta = {"names": ninfo, "stmts": stmts, "assoc": ainfo, "design": d}
+        if len(dterm) <= BIG_TERM:
+            term = "{| ec_d := %s;\n ec_names := %s;\n ec_assoc := [%s]; ec_user := %s |}" % (
+                dterm, nterm, "; ".join(aterms), coq_strs(user_reserved or []))
+            cases.append(ECase(dname, e, term, meta))
+            continue
+        # a very large entity: the rules about statements are conjunctions over d_conc, so the statement list is
+        # cut into pieces that share the declarations (defined once per generated file)
+        i0 = dterm.index("{| d_sigs := ") + len("{| d_sigs := ")
+        i1 = dterm.index(";\n   d_vars := ")
+        i2 = dterm.index(";\n   d_conc := [")
+        i3 = dterm.index("];\n   d_clk := ")
+        uid = "big_%s_%s" % (re.sub(r"\W", "_", dname)[-40:], re.sub(r"\W", "_", e.name))
+        prelude = (uid, "Definition %s_sigs : list sigdecl := %s.\nDefinition %s_vars : list vardecl := %s.\n" % (
+            uid, dterm[i0:i1], uid, dterm[i1 + len(";\n   d_vars := "):i2]))
+        concs = [pr.conc(c) for c in d.conc]
+        size = 0
+        start = 0
+        for k in range(len(concs) + 1):
+            if k == len(concs) or (size + len(concs[k]) > BIG_TERM and k > start):
+                dt = "{| d_sigs := %s_sigs; d_vars := %s_vars; d_conc := [%s%s" % (
+                    uid, uid, ";\n    ".join(concs[start:k]), dterm[i3:])
+                term = "{| ec_d := %s;\n ec_names := %s;\n ec_assoc := [%s]; ec_user := %s |}" % (
+                    dt, nterm, "; ".join(aterms) if start == 0 else "", coq_strs(user_reserved or []))
+                c = ECase(dname, e, term, dict(meta, stmts=stmts[start:k]))
+                c.prelude = prelude
+                cases.append(c)
+                start = k
+                size = 0
+            if k < len(concs):
+                size += len(concs[k])
     return cases, [e.name for e in ents]
 
 
@@ -464,11 +499,26 @@ def parse_verdicts(s):
 def eval_cases(ck, tag, cases, shard=24, timeout=1500):
     """-> list of (failing rule indices, ill-typed conc indices) per case; None where the term did not typecheck"""
     files = []
-    for si in range(0, len(cases), shard):
-        part = cases[si:si + shard]
-        path = os.path.join(ck.gen, "%s_%04d.v" % (tag, si // shard))
+    bounds = []
+    si = 0
+    while si < len(cases):
+        sj = si
+        size = 0
+        while sj < len(cases) and sj - si < shard and (sj == si or size + len(cases[sj].term) < 1500000):
+            size += len(cases[sj].term)
+            sj += 1
+        bounds.append((si, sj))
+        si = sj
+    for si, sj in bounds:
+        part = cases[si:sj]
+        path = os.path.join(ck.gen, "%s_%04d.v" % (tag, si))
         with open(path, "w") as f:
             f.write(PREAMBLE)
+            done = set()
+            for c in part:
+                if c.prelude is not None and c.prelude[0] not in done:
+                    done.add(c.prelude[0])
+                    f.write(c.prelude[1])
             for j, c in enumerate(part):
                 f.write("Definition c%d : ecase := %s.\n" % (j, c.term))
             f.write("Eval vm_compute in (map verdict [%s]).\n" % "; ".join("c%d" % j for j in range(len(part))))
@@ -505,6 +555,8 @@ def eval_one_big(ck, tag, case):
     path = os.path.join(ck.gen, "%s_big.v" % tag)
     with open(path, "w") as f:
         f.write(PREAMBLE)
+        if case.prelude is not None:
+            f.write(case.prelude[1])
         f.write("Definition c0 : ecase := %s.\n" % case.term)
         f.write("Eval vm_compute in (map verdict [c0]).\n")
     rc, out, err = coqc_big(path)
